@@ -378,8 +378,8 @@ package data
 // The same statement restricted to encodings that consist of one or two
 // well-formed pairs of at least six bytes each (inputs on which the known
 // threshold defect cannot manifest): every other deviation is still caught here.
-//@ option C01_ReadMapping_WellFormed nocontract ReadMapping Mapping.Data
-//@ lemma C01_ReadMapping_WellFormed(bytes []byte) {
+//@ option C01_C11_ReadMapping_WellFormed nocontract ReadMapping Mapping.Data
+//@ lemma C01_C11_ReadMapping_WellFormed(bytes []byte) {
 //@   assume(len(bytes) >= 2 && 0 < MapSize(bytes) && MapSize(bytes) <= len(bytes)-2)
 //@   body := bytes[2 : 2+MapSize(bytes)]
 //@   p1 := pairLen(body, 0)
